@@ -9,7 +9,7 @@ claimed = {
  "C09": ("exploration", "6 C09", "Seeded registration tables, re-registrations and message mixes on live concurrently served connections, compared with a reference decision table; the decision is input/config-quantified, the simulation supplies the live observation."),
  "C10": ("exploration", "6 C10", "Seeded peer histories (CERs of every kind, retransmissions, DWRs, application requests/answers, CEA write faults) against a state machine with name/index/catch-all registrations and refused built-in keys, judged by a reference gate; client side through scripted servers that pipeline application messages around the CEA, and one Client holding two connections at once; thorough enumerates all server histories up to length 4 over 9 item kinds."),
  "C11": ("fault_enumeration", "6 C11", "Enumerated sweep of every presence combination x every application-entry sequence up to length 2 (quick) / 3 (thorough) over 24 entry variants, plus seeded random CERs with CEA write faults and IPv4/IPv6/loopback endpoints; an independent acceptance predicate over the generated spec and an application table parsed from the dictionary XML decides CEA, metadata and close."),
- "C12": ("exploration", "6 C12", "Seeded client configurations and peer scripts on the fake clock (answer the k-th CER with one of 12 CEA kinds at instants around each retransmit deadline incl. +-1 ns, silence, disconnects, stalled CER writes, extra CEAs after success); timeline reference model for count, spacing, outcome, transport state and post-handshake dispatch."),
+ "C12": ("exploration", "6 C12", "Seeded client configurations and peer scripts on the fake clock (answer the k-th CER with one of 14 CEA kinds at instants around each retransmit deadline incl. +-1 ns, silence, disconnects, stalled CER writes, extra CEAs after success); timeline reference model for count, spacing, outcome, transport state and post-handshake dispatch."),
  "C13": ("exploration", "6 C13", "Seeded per-cycle answer plans (ack early/late, only the j-th retransmission, failure code, surplus answers, silence) for up to 22 watchdog cycles on the fake clock; a reference timeline computed from observed DWR and DWA instants gives expected retransmissions and the close instant; answering half on server- and client-role state machines."),
  "C14": ("exploration", "6 C14", "Seeded orderings of CloseNotify requests (handler / other goroutine / blocked reader / after termination), fragment deliveries, four termination kinds, local closes and releases at five tagged yield points; closed-iff-terminated invariant each step, all-channels-closed, message-history and goroutine-leak oracles; thorough enumerates all event-kind sequences up to length 6; watchdog-client variant on the fake clock."),
  "C15": ("exploration", "6 C15", "Seeded placement of handler panics, ten kinds of undecodable input, resets, temporary accept errors and a TLS peer stalled in its handshake among 3-5 concurrent connections (explicit mux or nil Handler) plus runtime registrations and a late connection; isolation, close, error-report and liveness oracles."),
